@@ -37,6 +37,7 @@ func runC19(c *core.Ctx, r *core.Reporter) {
 	c19symleaf(c, r, "C19.symleaf")
 	c19nilslot(c, r)
 	c19nilinitform(c, r)
+	c19quoted(c, r)
 	c19callhead(c, r)
 	c19callpkg(c, r)
 	c19headidentity(c, r)
